@@ -110,8 +110,17 @@ class Observer:
 
 def summary_obs(rp) -> Dict[str, Any]:
     stats = rp.e.reporter.get_summary_stats(rp) or {}
-    return {"state": [[str(k), json.dumps(canon_value(v), sort_keys=True)] for k, v in sorted(stats.items(), key=lambda kv: str(kv[0]))],
-            "reports": []}
+    out = [[str(k), json.dumps(canon_value(v), sort_keys=True)] for k, v in sorted(stats.items(), key=lambda kv: str(kv[0]))]
+    # the table of charge events a co-simulation user reads from the handler hive_cosim.load_scenario installs
+    from nrel.hive.reporting.handler.vehicle_charge_events_handler import VehicleChargeEventsHandler
+
+    for h in rp.e.reporter.handlers:
+        if isinstance(h, VehicleChargeEventsHandler):
+            ev = h.get_events()
+            cols = [c for c in sorted(ev.keys()) if c not in ("session_id", "instance_id")]      # per-run random tags
+            rows = sorted(json.dumps([canon_value(ev[c][i]) for c in cols], sort_keys=True) for i in range(len(ev[cols[0]]) if cols else 0))
+            out.append(["<cosim charge events>", json.dumps([cols, len(rows), rows[:400]])])
+    return {"state": out, "reports": []}
 
 
 # ---------------------------------------------------------------------------------------------
